@@ -4,7 +4,8 @@
 From Coq Require Import List.
 From Coq.Strings Require Import Byte.
 From GI Require Import Lib.Bytes Gen.TxtarConsts Txtar.Txtar Txtar.TxtarFacts Txtar.QuoteFacts
-  Txtar.TxtarIndex Txtar.TxtarIndexFacts Txtar.TxtarHolds Txtar.TxtarHoldsFacts.
+  Txtar.TxtarIndex Txtar.TxtarIndexFacts Txtar.TxtarHolds Txtar.TxtarHoldsFacts
+  Lib.Utf8 Lib.Utf8Facts Lib.Utf8EncodeFacts.
 Import ListNotations.
 
 Theorem C14_needs_quote_exact : forall d,
@@ -57,3 +58,24 @@ Print Assumptions C14_needs_quote_idx_eq.
 Theorem C14_holds_on : forall d, c14_holds_on d = true.
 Proof. exact c14_holds_on_true. Qed.
 Print Assumptions C14_holds_on.
+
+(* ---- utf8.Valid (used by Quote) at rune level, Lib/Utf8.v ---- *)
+
+(* the DFA utf8_valid of the model accepts exactly the byte strings that decode rune
+   by rune without the error answer (RuneError, width 1) of utf8.DecodeRune *)
+Theorem C14_utf8_valid_runes : forall d, utf8_valid d = true <-> valid_runes d.
+Proof. exact utf8_valid_iff. Qed.
+Print Assumptions C14_utf8_valid_runes.
+
+Theorem C14_utf8_valid_runes_ok : forall d, utf8_valid d = runes_ok d.
+Proof. exact utf8_valid_eq. Qed.
+Print Assumptions C14_utf8_valid_runes_ok.
+
+(* ... and a rune decodes without error exactly when the input starts with the
+   shortest-form encoding of a Unicode scalar value (no overlong form, no surrogate,
+   nothing above U+10FFFF) *)
+Theorem C14_decode_rune_spec : forall d r w,
+  (decode_rune d = Some (r, w) /\ is_err1 (r, w) = false) <->
+  (is_scalar r = true /\ w = rune_len r /\ exists rest, d = encode_rune r ++ rest).
+Proof. exact decode_rune_spec. Qed.
+Print Assumptions C14_decode_rune_spec.
